@@ -1,19 +1,25 @@
 import Arimaa.Props.C12
 import Arimaa.Lemmas.RsAgreeGen
 import Arimaa.Lemmas.RsAgreeStep
+import Arimaa.Gen.Bridge.GameState_must_complete_push_actions
+import Arimaa.Gen.Bridge.GameState_next_push_pull_state
+import Arimaa.Gen.Bridge.GameState_take_action
+import Arimaa.Gen.Bridge.GameState_valid_actions_no_rep
 
 /-!
 # C12 — the property at the level of the REGENERATED code
 
 `Gen/Rs.lean` is written by `tools/rs2lean2.py` from the current text of engine.rs / zobrist.rs on every
-run; `Lemmas/RsAgree*.lean` prove that each regenerated function equals
-`Res.guard (hand panic guard) (hand total function)`.  This file puts the agreement theorems of the
-functions C12 rests on into the property's proof closure and restates them as one named obligation
-(`C12_code_agrees`), plus corollaries that speak about the regenerated functions directly.  A change of
-the Rust text of one of these functions breaks an obligation here without any test having to find the input.
+run.  `Gen/Bridge/<fn>.lean` (generated) proves `@Rs.fn = @RsBase.fn` — the current text against the
+baseline text — and `Lemmas/RsAgree*.lean` prove that each baseline function equals
+`Res.guard (hand panic guard) (hand total function)`.  This file puts both, for the functions C12 rests
+on, into the property's proof closure and restates them as one named obligation (`C12_code_agrees`) about
+the CURRENT functions, plus corollaries that speak about them directly.  A change of the Rust text of one
+of these functions that alters behaviour breaks an obligation here without any test having to find the input.
+(written by tools/mkrprops.py)
 -/
 namespace Arimaa
-open Gen GameState Arimaa.Gen.Rs Arimaa.Rt
+open Gen GameState Arimaa.Gen.Rs Arimaa.Rt Arimaa.Gen.Bridge
 
 theorem C12_value_of_ok {α : Type} {x : Res α} {p : Bool} {v w : α} (h : x = Res.guard p v) (hx : x = .ok w) :
     p = false ∧ w = v := by
@@ -21,13 +27,16 @@ theorem C12_value_of_ok {α : Type} {x : Res α} {p : Bool} {v w : α} (h : x = 
   obtain ⟨hp, hv⟩ := Res.guard_eq_ok.mp hx
   exact ⟨hp, hv.symm⟩
 
-/-- the agreement theorems C12 rests on, as one obligation -/
+/-- the agreement theorems C12 rests on, about the CURRENT functions, as one obligation -/
 theorem C12_code_agrees :
     (∀ s : GameState, GameState_valid_actions_no_rep s = Res.guard s.validActionsNoRepPanics s.validActionsNoRep) ∧
     (∀ (s : GameState) (pp : PlayPhase), s.phase = .play pp → ∀ (sq : Nat) (d : Dir), GameState_next_push_pull_state s sq d = Res.guard (s.nextPushPullStatePanics pp sq) (s.nextPushPullState pp sq d)) ∧
     (∀ (s : GameState) (pp : PlayPhase), s.phase = .play pp → ∀ b : Board, GameState_must_complete_push_actions s b = Res.guard (mustCompletePushActionsPanics pp) (s.mustCompletePushActions pp b)) ∧
     (∀ (s : GameState) (a : Action), GameState_take_action s a = Res.guard (s.takeActionPanics a) (s.takeAction a)) :=
-  ⟨RsAgree.valid_actions_no_rep_direct, RsAgree.next_push_pull_state, RsAgree.must_complete_push_actions_eq, RsAgree.take_action_eq⟩
+  ⟨(by simp only [bridge_GameState_valid_actions_no_rep]; exact RsAgree.valid_actions_no_rep_direct),
+   (by simp only [bridge_GameState_next_push_pull_state]; exact RsAgree.next_push_pull_state),
+   (by simp only [bridge_GameState_must_complete_push_actions]; exact RsAgree.must_complete_push_actions_eq),
+   (by simp only [bridge_GameState_take_action]; exact RsAgree.take_action_eq)⟩
 
 
 end Arimaa
